@@ -72,7 +72,7 @@ package vm
 //@   && (forall i in 0..llen[t.entries] :: elemAt(t, i) != nil && elemAt(t, i) <= allocTop && lown[elemAt(t, i)] == t.entries && lpos[elemAt(t, i)] == i && hastype(elemAt(t, i).Value, "Page") && ifaceval(elemAt(t, i).Value) <= allocTop && (pageOf(elemAt(t, i)).VAddr in t.entriesTable) && t.entriesTable[pageOf(elemAt(t, i)).VAddr] == elemAt(t, i))
 //@   && (forall v uint64 :: v in t.entriesTable ==> t.entriesTable[v] != nil && lown[t.entriesTable[v]] == t.entries && 0 <= lpos[t.entriesTable[v]] && lpos[t.entriesTable[v]] < llen[t.entries] && lseq[t.entries][lpos[t.entriesTable[v]]] == t.entriesTable[v] && ifaceval(t.entriesTable[v].Value) <= allocTop && pageOf(t.entriesTable[v]).VAddr == v)
 
-// The list and the map also have the same number of members (kept apart from procWF: len(map) cannot be used under a quantifier).
+// The list and the map also have the same number of members (kept apart from procWF, which is used under quantifiers over PIDs).
 //@ pred procCard(t) = llen[t.entries] == len(t.entriesTable)
 
 //@ fn (*processTable).pageMustExist
@@ -172,6 +172,10 @@ package vm
 //@   ensures result == alignOf(addr, pt.log2PageSize)
 //@   label C26.align.le
 //@   ensures result <= addr
+//@   label C26.align.within
+//@   ensures pt.log2PageSize < 64 ==> int(addr) - int(result) < (1 << int(pt.log2PageSize))
+//@   label C26.align.idempotent
+//@   ensures alignOf(result, pt.log2PageSize) == result
 //@   assigns nothing
 
 // ---- the page table: one process table per PID ----
